@@ -168,6 +168,28 @@ pub fn alphabet(quick: bool) -> Vec<[f64; 2]> {
     for h in [10.0, 100.0, 1e10, 1e22, 0.1, 1e-10, core::f64::consts::E, 3.0] {
         v.extend(with_los(h, &[0, 1, 30], &[0, (1u64 << 52) - 1], &[]));
     }
+    // pre-images of the strata of the inner function (ln is a Newton iteration on exp): x = exp(k/4 + d)
+    for k in (-2400..=2400i64).step_by(if quick { 3 } else { 1 }) {
+        let q = k as f64 * 0.25;
+        for d in [0.0, 1.0, -1.0, 1.0 / 16.0, -1.0 / 16.0, 32.0, -32.0] {
+            // offsets below half an ulp of q (the high word of the iterate stays exactly q) and one above
+            let t = tfref::bf::Bf::from_f64(q).add_exact(&tfref::bf::Bf::from_f64(d * 2f64.powi(-55) * q.abs().max(0.25)));
+            if let Some(w) = crate::fx::dd_of(&rf::exp_pt(&t, 256)) {
+                v.push(w);
+            }
+        }
+    }
+    // x = 2^(m + 1/2 + d): ties of the integer rounding inside exp2 (log2 iterates on exp2)
+    for m in (-1000..=959i64).step_by(if quick { 7 } else { 1 }) {
+        for d in [0.0, 1.0, -1.0] {
+            let t = tfref::bf::Bf::from_f64(m as f64 + 0.5).add_exact(&tfref::bf::Bf::from_f64(d * 2f64.powi(-48) * (1.0 + (m as f64).abs())));
+            if let Some(w) = crate::fx::dd_of(&rf::exp2_pt(&t, 256)) {
+                v.push(w);
+            }
+        }
+    }
+    // linear ladder over (0, 8]
+    v.extend(crate::fx::linear_ladder(1, 512, 64.0, false));
     // domain errors
     for z in [[0.0, 0.0], [-0.0, 0.0], [-1.0, 0.0], [-2f64.powi(-1000), 0.0], [-1e300, 0.0], [-5e-324, 0.0]] {
         v.push(z);
@@ -192,6 +214,20 @@ pub fn alphabet_1p(quick: bool) -> Vec<[f64; 2]> {
         let h = -1.0 + 2f64.powi(-j.min(53));
         v.extend(with_los(h, &[0, 10], &[0, (1u64 << 52) - 1], &[]));
     }
+    // pre-images of the exp_m1 strata: x = expm1(k/4 + d), and a linear ladder over (-1, 4]
+    for k in (-160..=2400i64).step_by(if quick { 3 } else { 1 }) {
+        let q = k as f64 * 0.25;
+        for d in [0.0, 1.0, -1.0, 1.0 / 16.0, -1.0 / 16.0] {
+            let t = tfref::bf::Bf::from_f64(q).add_exact(&tfref::bf::Bf::from_f64(d * 2f64.powi(-55) * q.abs().max(0.25)));
+            if t.is_zero() {
+                continue;
+            }
+            if let Some(w) = crate::fx::dd_of(&rf::expm1_pt(&t, 256)) {
+                v.push(w);
+            }
+        }
+    }
+    v.extend(crate::fx::linear_ladder(-127, 512, 128.0, false));
     dedup(&mut v);
     v.retain(|w| dd_valid_fast(w[0], w[1]) && w[0] <= 2f64.powi(960));
     v
